@@ -209,19 +209,35 @@ theorem C20_create_observable {cfg : Cascade.Cfg} (hcfg : cfg = Cascade.Cfg.std)
       * with queues on, no queue branch (`q/<version>`, `q/w/<id>/<version>/...`) of its version exists — a fortiori
         no pull request is queued on it;
       * for `development/M.m`, no `stabilization/M.m.*` is alive;
-      * the operations are: (the deletion of an empty queue branch,) the push of the archive tag on `tip`, THEN the
-        deletion of the branch — in this order; the archive tag did not exist. -/
+    WHATEVER the state of the archive tag: the two refusals also guard the completion of a deletion that was
+    interrupted after the tag was pushed (f819c35). The operations are (the deletion of an empty queue branch, then)
+      * when the archive tag does not exist: the push of the archive tag on `tip`, THEN the deletion of the branch;
+      * when it exists, it is on `tip` (a tag anywhere else is a refusal): the deletion of the branch alone. -/
 theorem C20_delete (cfg : Cascade.Cfg) (lits : Lits) (st : Repo) (name : Ref) (recognized : Bool)
     (h : (deleteBranch cfg lits st name recognized).outcome = .success) :
     ∃ d tip pre, name = .dest d ∧ st.heads.get (.dest d) = some tip ∧
-      (deleteBranch cfg lits st name recognized).ops =
-        pre ++ [.pushTag (archiveTag lits d) tip, .ref (.delete (.dest d))] ∧
+      ((hasTag st.tags (archiveTag lits d) = false ∧
+          (deleteBranch cfg lits st name recognized).ops =
+            pre ++ [.pushTag (archiveTag lits d) tip, .ref (.delete (.dest d))]) ∨
+        (tagCommit st.tags (archiveTag lits d) = some tip ∧
+          (deleteBranch cfg lits st name recognized).ops = pre ++ [.ref (.delete (.dest d))])) ∧
       (∀ op ∈ pre, ∃ q, op = .ref (.delete q) ∧ isQRef q = true) ∧
       (st.useQueue = true → ∀ r c, (r, c) ∈ st.heads → qDest r ≠ some d) ∧
-      (∀ M m u, d = .dev M (some m) → st.heads.get (.dest (.stab M m u)) = none) ∧
-      hasTag st.tags (archiveTag lits d) = false := by
+      (∀ M m u, d = .dev M (some m) → st.heads.get (.dest (.stab M m u)) = none) := by
   obtain ⟨d, tip, hn, htip, hstab, hq, htag, hops⟩ := (deleteBranch_inv cfg lits st name recognized).1 h
-  refine ⟨d, tip, _, hn, htip, hops, ?_, ?_, ?_, htag⟩
+  refine ⟨d, tip, (if st.useQueue && st.heads.has (delQueueRef d) then [.ref (.delete (delQueueRef d))] else []),
+    hn, htip, ?_, ?_, ?_, ?_⟩
+  · cases ht : hasTag st.tags (archiveTag lits d) with
+    | false =>
+      left
+      refine ⟨rfl, ?_⟩
+      rw [hops, ht]
+      rfl
+    | true =>
+      right
+      refine ⟨htag ht, ?_⟩
+      rw [hops, ht]
+      rfl
   · intro op hop
     split at hop
     · simp only [List.mem_cons, List.not_mem_nil, or_false] at hop
@@ -242,87 +258,104 @@ theorem C20_delete (cfg : Cascade.Cfg) (lits : Lits) (st : Repo) (name : Ref) (r
       rw [hstab rfl] at this
       cases this
 
-/- The clause of the property, at full strength, would read
+/-- **C20 (the delete job refuses while ...)**, in the direction the property states it: while a queue branch of the
+    version of `d` exists (queues on) — so while a pull request is queued on it — or, for `development/M.m`, while a
+    `stabilization/M.m.u` is alive, `delete_branch d` does not succeed and performs no operation; in particular
+    when the archive tag already sits on the tip of `d`. -/
+theorem C20_delete_refuses (cfg : Cascade.Cfg) (lits : Lits) (st : Repo) (d : Dest) (recognized : Bool)
+    (h : (st.useQueue = true ∧ ∃ r c, (r, c) ∈ st.heads ∧ qDest r = some d) ∨
+         (∃ M m u c, d = .dev M (some m) ∧ st.heads.get (.dest (.stab M m u)) = some c)) :
+    (deleteBranch cfg lits st (.dest d) recognized).outcome ≠ .success ∧
+    (deleteBranch cfg lits st (.dest d) recognized).ops = [] ∧
+    (deleteBranch cfg lits st (.dest d) recognized).resubmit = [] := by
+  have hne : (deleteBranch cfg lits st (.dest d) recognized).outcome ≠ .success := by
+    intro hs
+    obtain ⟨d', tip, pre, hn, _, _, _, hq, hstab⟩ := C20_delete cfg lits st (.dest d) recognized hs
+    simp only [Ref.dest.injEq] at hn
+    subst hn
+    rcases h with ⟨huq, r, c, hm, hr⟩ | ⟨M, m, u, c, hd, hc⟩
+    · exact hq huq r c hm hr
+    · rw [hstab M m u hd] at hc
+      cases hc
+  exact ⟨hne, (deleteBranch_inv cfg lits st (.dest d) recognized).2.1 hne,
+    (deleteBranch_inv cfg lits st (.dest d) recognized).2.2⟩
 
-      (deleteBranch cfg lits st name recognized).outcome ≠ .success →
-        (deleteBranch cfg lits st name recognized).ops = []
-
-   It is FALSE of the code in one exit: `git tag <archive tag>` fails when the tag already exists, and this comes
-   after `do_delete(del_queue)`. The early test of the tag skips hotfix branches, so the exit is reachable for a
-   hotfix branch whose archive tag `x.y.z.archived_hotfix_branch` exists while `q/x.y.z` (the queue of
-   stabilization/x.y.z — not the queue of the hotfix line) exists: `C20_delete_refused_counterexample`, reproduced on
-   the real code (JobFailure "Unable to push new tag", `q/4.2.17` gone). Such a state is not produced by the jobs
-   themselves: `create_branch` never publishes a branch whose archive tag exists (`C20_create`), `delete_branch`
-   creates the tag as it removes the branch; it needs a tag or a hotfix branch pushed by hand. Hence:
-   `C20_delete_refused_partial` (every state, the exception named) and `C20_delete_refused` (the archive tag of the
-   requested branch does not exist). -/
-
-/-- **C20 (a delete job that refuses leaves the remote untouched), every state** — with one exit excepted, which the
-    statement names: `JobFailure` "Unable to push new tag" for a branch whose archive tag already exists, after the
-    queue branch `q/<version>` was deleted. -/
-theorem C20_delete_refused_partial (cfg : Cascade.Cfg) (lits : Lits) (st : Repo) (name : Ref) (recognized : Bool)
-    (h : (deleteBranch cfg lits st name recognized).outcome ≠ .success) :
-    (deleteBranch cfg lits st name recognized).resubmit = [] ∧
-    ((deleteBranch cfg lits st name recognized).ops = [] ∨
-      ((deleteBranch cfg lits st name recognized).outcome = .failure .tagPush ∧
-        ∃ d, name = .dest d ∧ st.useQueue = true ∧ hasTag st.tags (archiveTag lits d) = true ∧
-          (deleteBranch cfg lits st name recognized).ops = [.ref (.delete (delQueueRef d))])) :=
-  ⟨(deleteBranch_inv cfg lits st name recognized).2.2, (deleteBranch_inv cfg lits st name recognized).2.1 h⟩
-
-/-- **C20 (a delete job that refuses leaves the remote untouched)** — when the archive tag of the requested branch
-    does not exist (so in every state the jobs themselves produce). -/
+/-- **C20 (a delete job that refuses leaves the remote untouched)** — every state, every exit that is not a success:
+    no operation, no follow-up job. (Before f819c35 one exit was excepted: `git tag` failing on an archive tag that
+    existed, after the queue branch was deleted; the archive tag is now looked at before anything is touched, for
+    hotfix branches too, and `git tag` only runs when the tag does not exist.) -/
 theorem C20_delete_refused (cfg : Cascade.Cfg) (lits : Lits) (st : Repo) (name : Ref) (recognized : Bool)
-    (htag : ∀ d, name = .dest d → hasTag st.tags (archiveTag lits d) = false)
     (h : (deleteBranch cfg lits st name recognized).outcome ≠ .success) :
-    (deleteBranch cfg lits st name recognized).ops = [] ∧ (deleteBranch cfg lits st name recognized).resubmit = [] := by
-  obtain ⟨h1, h2⟩ := C20_delete_refused_partial cfg lits st name recognized h
-  refine ⟨?_, h1⟩
-  rcases h2 with h2 | ⟨_, d, hn, _, ht, _⟩
-  · exact h2
-  · rw [htag d hn] at ht; cases ht
+    (deleteBranch cfg lits st name recognized).ops = [] ∧ (deleteBranch cfg lits st name recognized).resubmit = [] :=
+  ⟨(deleteBranch_inv cfg lits st name recognized).2.1 h, (deleteBranch_inv cfg lits st name recognized).2.2⟩
 
-/-- the witness: hotfix/4.2.17 exists with its archive tag, `q/4.2.17` exists (with a queued pull request):
-    `delete_branch hotfix/4.2.17` answers `JobFailure` and has deleted `q/4.2.17` -/
-def exClash : Repo :=
+/-- an archive tag that is not on the tip of the branch is a refusal -/
+theorem C20_delete_tag_elsewhere (cfg : Cascade.Cfg) (lits : Lits) (st : Repo) (d : Dest) (recognized : Bool)
+    (tip : Commit) (htip : st.heads.get (.dest d) = some tip) (ht : hasTag st.tags (archiveTag lits d) = true)
+    (hne : tagCommit st.tags (archiveTag lits d) ≠ some tip) :
+    (deleteBranch cfg lits st (.dest d) recognized).outcome = .failure (.archiveTag (archiveTag lits d)) ∧
+    (deleteBranch cfg lits st (.dest d) recognized).ops = [] := by
+  have hb : (tagCommit st.tags (archiveTag lits d) != some tip) = true := by
+    simpa [bne_iff_ne] using hne
+  constructor <;> simp [deleteBranch, classOf, htip, ht, hb, fail]
+
+/-- the interrupted deletion of hotfix/4.2.17 (archive tag on its tip) while pull request 1 is queued on the hotfix
+    line, and the same state without the queue -/
+def exResume (queued : Bool) : Repo :=
   { g := ⟨[[0], [1, 0]]⟩, useQueue := true, tags := [("4.2.17.archived_hotfix_branch", 0)],
-    heads := [(.dest (.hotfix 4 2 17), 0), (.q (.stab 4 2 17), 1), (.qw 1 (.stab 4 2 17) "bugfix/x", 1)] }
-
-theorem C20_delete_refused_counterexample :
-    (deleteBranch Cascade.Cfg.std Lits.std exClash (.dest (.hotfix 4 2 17)) true).outcome = .failure .tagPush ∧
-    (deleteBranch Cascade.Cfg.std Lits.std exClash (.dest (.hotfix 4 2 17)) true).ops
-      = [.ref (.delete (.q (.stab 4 2 17)))] := by
-  constructor
-  · decide
-  · rfl
+    heads := [(.dest (.hotfix 4 2 17), 0)] ++
+      (if queued then [(.q (.hotfix 4 2 17), 1), (.qw 1 (.hotfix 4 2 17) "bugfix/x", 1)] else []) }
 
 /-- the remote after the operations of a successful deletion, nothing refused: the archive tag points to the
-    deleted tip, the branch is gone, no other destination branch moved -/
+    deleted tip (pushed by this job, or already there), the branch is gone, no other destination branch moved -/
 theorem C20_delete_result (cfg : Cascade.Cfg) (lits : Lits) (st : Repo) (name : Ref) (recognized : Bool)
     (h : (deleteBranch cfg lits st name recognized).outcome = .success) :
     ∃ d tip, name = .dest d ∧ st.heads.get (.dest d) = some tip ∧
       let after := applyAs st.g noRej (fun _ => false) (st.heads, st.tags) (deleteBranch cfg lits st name recognized).ops
-      after.2 = st.tags ++ [(archiveTag lits d, tip)] ∧ after.1.get (.dest d) = none ∧
+      ((hasTag st.tags (archiveTag lits d) = false ∧ after.2 = st.tags ++ [(archiveTag lits d, tip)]) ∨
+        (tagCommit st.tags (archiveTag lits d) = some tip ∧ after.2 = st.tags)) ∧
+      after.1.get (.dest d) = none ∧
       ∀ x, isQRef x = false → x ≠ .dest d → after.1.get x = st.heads.get x := by
   obtain ⟨d, tip, hn, htip, _, _, htag, hops⟩ := (deleteBranch_inv cfg lits st name recognized).1 h
   refine ⟨d, tip, hn, htip, ?_⟩
   simp only []
-  rw [hops]
-  by_cases hc : (st.useQueue && st.heads.has (delQueueRef d)) = true
-  · simp only [hc, if_true, applyAs, List.cons_append, List.nil_append, List.foldl_cons, List.foldl_nil, applyA,
-      applyOp, noRej, Bool.false_eq_true, if_false, Bool.false_or, htag]
-    refine ⟨trivial, ?_, ?_⟩
-    · rw [RefMap.get_del_eq]
-    · intro x hx hxd
-      rw [RefMap.get_del_ne _ hxd, RefMap.get_del_ne]
-      intro he
-      subst he
-      cases d <;> simp [isQRef, qDest, delQueueRef] at hx
-  · simp only [hc, Bool.false_eq_true, if_false, applyAs, List.nil_append, List.foldl_cons, List.foldl_nil, applyA,
-      applyOp, noRej, Bool.false_or, htag]
-    refine ⟨trivial, ?_, ?_⟩
-    · rw [RefMap.get_del_eq]
-    · intro x _ hxd
-      rw [RefMap.get_del_ne _ hxd]
+  have hx : ∀ x, isQRef x = false → x ≠ delQueueRef d := by
+    intro x hx he
+    subst he
+    cases d <;> simp [isQRef, qDest, delQueueRef] at hx
+  cases ht : hasTag st.tags (archiveTag lits d) with
+  | false =>
+    simp only [ht, Bool.false_eq_true, if_false] at hops
+    rw [hops]
+    by_cases hc : (st.useQueue && st.heads.has (delQueueRef d)) = true
+    · simp only [hc, if_true, applyAs, List.cons_append, List.nil_append, List.foldl_cons, List.foldl_nil, applyA,
+        applyOp, noRej, Bool.false_eq_true, if_false, Bool.false_or, ht]
+      refine ⟨Or.inl ⟨trivial, trivial⟩, ?_, ?_⟩
+      · rw [RefMap.get_del_eq]
+      · intro x hx' hxd
+        rw [RefMap.get_del_ne _ hxd, RefMap.get_del_ne _ (hx x hx')]
+    · simp only [hc, Bool.false_eq_true, if_false, applyAs, List.nil_append, List.cons_append, List.foldl_cons,
+        List.foldl_nil, applyA, applyOp, noRej, Bool.false_or, ht]
+      refine ⟨Or.inl ⟨trivial, trivial⟩, ?_, ?_⟩
+      · rw [RefMap.get_del_eq]
+      · intro x _ hxd
+        rw [RefMap.get_del_ne _ hxd]
+  | true =>
+    simp only [ht, if_true, List.nil_append] at hops
+    rw [hops]
+    by_cases hc : (st.useQueue && st.heads.has (delQueueRef d)) = true
+    · simp only [hc, if_true, applyAs, List.cons_append, List.nil_append, List.foldl_cons, List.foldl_nil, applyA,
+        applyOp, noRej, Bool.false_eq_true, if_false]
+      refine ⟨Or.inr ⟨htag ht, trivial⟩, ?_, ?_⟩
+      · rw [RefMap.get_del_eq]
+      · intro x hx' hxd
+        rw [RefMap.get_del_ne _ hxd, RefMap.get_del_ne _ (hx x hx')]
+    · simp only [hc, Bool.false_eq_true, if_false, applyAs, List.nil_append, List.foldl_cons, List.foldl_nil, applyA,
+        applyOp, noRej]
+      refine ⟨Or.inr ⟨htag ht, trivial⟩, ?_, ?_⟩
+      · rw [RefMap.get_del_eq]
+      · intro x _ hxd
+        rw [RefMap.get_del_ne _ hxd]
 
 /-- **Relation with the system model (C01)** — the ref operations of a successful `delete_branch` are those of the
     `Flow` event `deleteBranch d`, for a development or stabilization branch in queue mode (the `Flow` event deletes
@@ -337,7 +370,7 @@ theorem C20_delete_flow (cfg : Cascade.Cfg) (lits : Lits) (st : Repo) (d : Dest)
   rw [hops]
   have hq : delQueueRef d = .q d := by cases d <;> first | rfl | cases hd
   simp only [plan, hr, huq, hq, Bool.true_and]
-  split <;> simp [refOps]
+  split <;> split <;> simp [refOps]
 
 /-! ### rebuild_queues, delete_queues -/
 
@@ -508,6 +541,17 @@ example : LitsOK BertE.Drv.C20.genLits ∧
     deleted (tag first, then the branch), and with queues on the development branch with a queue is refused -/
 example : (deleteBranch Cascade.Cfg.std Lits.std (exRepo false) (.dest (.stab 5 1 0)) true).outcome = .success ∧
     (deleteBranch Cascade.Cfg.std Lits.std (exRepo false) (.dest (.stab 5 1 0)) true).ops.length = 2 := by decide
+
+/-- `C20_delete`, `C20_delete_refuses`, `C20_delete_tag_elsewhere` on the resumed path: with the archive tag on the tip
+    of hotfix/4.2.17 and nothing queued the deletion is completed by the removal of the branch alone; with pull
+    request 1 queued on the hotfix line the job refuses and does nothing; with the tag on another commit it refuses -/
+example : (deleteBranch Cascade.Cfg.std Lits.std (exResume false) (.dest (.hotfix 4 2 17)) true).outcome = .success ∧
+    (deleteBranch Cascade.Cfg.std Lits.std (exResume false) (.dest (.hotfix 4 2 17)) true).ops.length = 1 ∧
+    (deleteBranch Cascade.Cfg.std Lits.std (exResume true) (.dest (.hotfix 4 2 17)) true).outcome
+      = .failure .queuedData ∧
+    (deleteBranch Cascade.Cfg.std Lits.std (exResume true) (.dest (.hotfix 4 2 17)) true).ops.length = 0 ∧
+    (deleteBranch Cascade.Cfg.std Lits.std { exResume true with tags := [("4.2.17.archived_hotfix_branch", 1)] }
+      (.dest (.hotfix 4 2 17)) true).outcome = .failure (.archiveTag "4.2.17.archived_hotfix_branch") := by decide
 
 /-- `C20_delete_refused`, `C20_create_refused`: refusals exist (a name outside the grammar, an absent branch) -/
 example : (deleteBranch Cascade.Cfg.std Lits.std (exRepo true) (.other "master2") false).outcome = .failure .notGwf ∧
